@@ -50,6 +50,10 @@ DELIM_FORMATS = [
     RS + "{file_name}" + GS + "{error.message!r}\\n\\t" + US + "\\",
     RS + "{error.validator!s:>14}" + GS + "{file_name}" + GS + "{{literal}} %s \\u2717 \\x41" + GS + "{error.message}" + US,
 ]
+# a format that INDEXES into an attribute of the error: fine for every error of a schema whose subschemas all have
+# a title; where it does not apply to some expected error (str.format raises) the run is outside the quantifier
+TITLE_FORMAT = RS + "{file_name}" + GS + "{error.schema[title]}" + GS + "{error.message}" + US
+DELIM_FORMATS.append(TITLE_FORMAT)
 CLAIMED_STATES = ("ok", "missing", "unparsable", "undecodable")
 
 
@@ -100,6 +104,9 @@ def generate(rng, tier="quick"):
                         ninstances=6, ndefs=rng.randint(1, 4))
     draft = world["draft"]
     schema = world["root"]
+    titled = rng.random() < 0.12
+    if titled:
+        schema = W.add_titles(schema)       # every subschema has a "title": formats may index into error.schema
     if rng.random() < 0.5:
         schema = dict(schema)
         schema["$schema"] = W.METASCHEMA_IDS[draft] + rng.choice(["", "#"])
@@ -216,6 +223,8 @@ def generate(rng, tier="quick"):
         error_format = rng.choice(DELIM_FORMATS)
         if rng.random() < 0.08:
             error_format = ""
+        if titled:
+            error_format = TITLE_FORMAT
     return {"property": PROPERTY, "fs": fs, "schema_path": spath, "instances": [] if use_stdin else instances,
             "stdin": use_stdin, "output": output, "error_format": error_format, "validator": validator,
             "base_uri": base_uri, "netdocs": netdocs, "draft": draft,
@@ -380,6 +389,14 @@ def execute(scn):
         opened.append(scn["schema_path"])
 
     # ---------------------------------------------------------------- model
+    inapplicable = []
+
+    def fmt_apply(p, e):
+        try:
+            return fmt.format(file_name=p, error=e)
+        except Exception:
+            inapplicable.append(p)      # the user's format does not apply to this error: str.format itself raises
+            return ""
     weak = False            # outside the property's quantifier: only "must not report success"
     expect_ok = True
     viol = []
@@ -421,7 +438,7 @@ def execute(scn):
                 schema_failed = True
                 expected_msgs[scn["schema_path"]] = [e.message]
                 if fmt:
-                    expected_records[scn["schema_path"]] = [fmt.format(file_name=scn["schema_path"], error=e)]
+                    expected_records[scn["schema_path"]] = [fmt_apply(scn["schema_path"], e)]
                 e = None
             except Exception:
                 weak = True
@@ -453,12 +470,17 @@ def execute(scn):
                     expect_ok = False
                     expected_msgs.setdefault(p, []).extend(e.message for e in errs)
                     if fmt:
-                        expected_records.setdefault(p, []).extend(fmt.format(file_name=p, error=e) for e in errs)
+                        expected_records.setdefault(p, []).extend(fmt_apply(p, e) for e in errs)
                     else:
                         expected_records[p] = None
                 else:
                     valid_paths.append(p)
                 errs = None
+    if inapplicable:
+        weak = True
+        probe("format_inapplicable_to_an_expected_error")
+    elif fmt == TITLE_FORMAT and expected_records:
+        probe("indexing_format_applied")
     state = digest([sc[0], classes, scn["output"], bool(fmt), bool(scn["validator"]), bool(scn["base_uri"])])
 
     # ---------------------------------------------------------------- oracles
